@@ -191,6 +191,8 @@ def dec(r, bs, fill=None, now=None, dsrc=None, ro=1, cuts='-'):
     fill = r.choice([0, 0xAA, 0xFF, 10, 0xD4, r.randrange(256)]) if fill is None else fill
     now = r.choice([0, 1, 123456789, 0xFFFFFFFF, 0x100000005]) if now is None else now
     dsrc = r.choice([65, 0, 255, ESC]) if dsrc is None else dsrc
+    if ro == 1:
+        ro = r.choice([1, 1, 2, 3])          # the same reading through the one-argument call / ParseMessages() with a handler (seed C17-13)
     return 'DEC %d %d %d %d %s %s' % (fill, now, dsrc, ro, cuts, hx(bs))
 
 
